@@ -9,9 +9,54 @@ closest_listb, proved to accept exactly the model's list) are run on the same in
   query   gambit.query.query on a generated on-disk database for several chunk sizes, and the
           CLI `gambit query` (CSV and JSON, several --cores) on the same database
 
+  rowx    get_result_item with the arguments in the other forms a caller may use (see table)
+  rowseq  sequences of get_result_item calls on ONE database object / QueryParams / ndarray buffer
+  queryx  query() / query_parse() / `gambit query` through their other call forms, containers, database
+          forms, inputs and output formats (see table)
+  queryenv whole queries + CLI export in sub-processes per CPU-dispatch / OpenMP-thread environment
+
 Observables: the list of (reference index, float32 bit pattern of the distance, matched taxon),
 the closest match, CSV closest.description, JSON closest_genomes[0].  Model inputs (distance
-keys, taxonomy tables, reference order) come from the harness's own generated structures."""
+keys, taxonomy tables, reference order) come from the harness's own generated structures.
+
+Coverage audit (item of the property text -> stream(s) driving the IMPLEMENTATION; P = full predicate
+judged there: checker-accepted prefix, exact distance, taxon, head = closest_match, repeat-identical):
+
+  clause  length min(N, #refs)             witness, exhaustive-rows, random-rows*, rowx-forms, query, queryx  P
+  clause  (distance, reference order)      all row streams (ties inside / straddling N), query, queryx, queryenv  P
+  clause  exact distance                   all row streams (float32 bits); rowx-forms f64 rows (double bits); CLI JSON/archive
+                                           `distance` and CSV closest.distance in queryx, queryenv  P
+  clause  taxon the distance alone assigns all row streams (thresholds on / next to distances, 0.0, None), query, queryx
+                                           (API + JSON/archive matched_taxon)  P
+  clause  first entry = closest_match      all row streams, query, queryx (API, archive closest_match), queryenv  P
+  clause  CSV and JSON name same genome    query (plain names), queryx (odd / duplicated descriptions; + archive), queryenv  P
+  clause  identical on every run           every row case is evaluated twice; rowseq (second pass + retained results);
+                                           queryx (same N under different configs), queryenv (across environments)
+  quant   identical / equidistant refs     gen_query_case pools (query, queryx, queryenv); tie-heavy rows
+  quant   databases: SQL row order, unrelated signatures in the file (sig_indices a strict subset), id_attr
+          refseq_acc / genbank_acc / key, k in 5..17 (uint16/32/64 signatures), load_from_dir / load(files) /
+          in-memory ReferenceDatabase(genomeset, AnnotatedSignatures)         queryx, queryenv (sqlorder also: query)
+  quant   queries: 1..25 per call, empty signature, repeated signature, SignatureList / SignatureArray / list /
+          tuple / iterator / uint64 arrays / HDF5 file, FASTA files (query_parse, CLI positional, -l/--ldir)   queryx
+  quant   N >= 1: 1..len+1, 1000 (rows); NumPy int8..uint64 / intp scalars, bool, 2**31-1 .. 10**30 (rowx-forms,
+          rowenv-forms); per-config N, 2**40, np.int64 via **kw (queryx); CLI default 10 (query, queryx, queryenv)
+  quant   CPU-feature dispatch             rowenv, rowenv-forms (get_result_item); queryenv (whole query + CLI)
+  quant   thread counts                    rowenv* (OMP_NUM_THREADS), query / queryx (--cores, omp_set_num_threads 1..3),
+                                           queryenv (OMP_NUM_THREADS 1 / 16 + --cores)
+  quant   chunk sizes                      query, queryx (1, 2, 3, 7, 16, #refs-1, #refs, #refs+1, 1000, None; also as
+                                           np.int64), queryenv
+  api     get_result_item forms            rowx-forms: keyword / positional call, QueryParams built positionally, genomes
+                                           as tuple, row dtype f4 / f8 / non-native, row of C / F matrix, column, strided,
+                                           negative stride, unaligned, read-only, ndarray sub-class
+  api     reuse of caller objects          rowseq: same db + same QueryParams (report_closest reassigned) + same buffer
+                                           (overwritten in place); queryx 'shared' params across calls
+  api     query(): params / **kw / inputs= / progress=None; query_parse(): params + file_labels / **kw, parse_kw
+          concurrency None / threads / processes; classify_strict (API) and --strict / --no-strict (CLI)   queryx
+  channel CSV, JSON, archive (-f), -d and $GAMBIT_DB_PATH, -s / files / -l                      queryx
+  malformed: empty reference list (ValueError)                                                  malformed
+Not judged: strict-mode classifier exceptions (C10's subject; counted as not-judged:*); k <= 4 databases (uint8
+signatures are refused by the distance kernel: no result exists); NaN / negative distances (outside ASSUMPTIONS).
+An exception of query()/the CLI on a well-formed input in the new kinds is reported through ctx.broke."""
 import json
 import os
 import struct
@@ -23,18 +68,40 @@ RULE = ('row/rowenv: (N, [(float32 distance, taxon)], taxonomy) -> get_result_it
         'the extracted checker closest_listb (= model list), carry dists[i] bit-exactly and the taxon the model assigns, '
         'and start with classify()\'s closest_match; identical on a repeated call.  query: generated reference '
         'database + query signatures -> query() for several chunk sizes and the CLI (csv/json, several --cores): same '
-        'list for every configuration, CSV closest.description == JSON closest_genomes[0].  non-trivial: at least two '
+        'list for every configuration, CSV closest.description == JSON closest_genomes[0].  rowx: as row with N given '
+        'as a NumPy integer scalar / bool / up to 10**30 and the distance row as float64 (incl. genuine doubles, judged on '
+        'double bit patterns), non-native byte order, strided / negative-stride / column / Fortran-matrix row / unaligned / '
+        'read-only / sub-class arrays, genomes as a tuple, keyword or positional call.  rowseq: 2-6 calls sharing one '
+        'database object and, per case, one QueryParams instance (report_closest reassigned) and / or one ndarray '
+        '(overwritten in place), run twice: every step judged as a row, results kept from the first pass must not change.  '
+        'queryx: generated database (k 5..17, odd or duplicated descriptions, unrelated signatures inside the signature '
+        'file, id_attr refseq_acc / genbank_acc / key, opened from a directory / two files / in memory) x 1..25 queries '
+        '(incl. empty and repeated ones) given as SignatureList / SignatureArray / list / tuple / iterator / uint64 arrays / '
+        'HDF5 file / FASTA files -> query() via params, **kw (also NumPy scalars), inputs=, a shared QueryParams, '
+        'query_parse(); per-config N, chunk size, thread count, classify_strict; then `gambit query` (csv, json, archive; '
+        '-s / files / -l; --cores; --strict; -d / GAMBIT_DB_PATH): every list = the model list for its N, CSV '
+        'closest.description / closest.distance = JSON closest_genomes[0] = archive closest_genomes[0] = archive '
+        'closest_match.  queryenv: such databases queried and exported in sub-processes under each NPY_DISABLE_CPU_FEATURES '
+        '/ OMP_NUM_THREADS setting: same lists as the model in every environment.  non-trivial: at least two '
         'references and a tie of distances inside or at the boundary of the reported prefix')
 TRUSTED = ['NumPy: np.argsort(kind="stable") is a stable sort by value and np.argmin returns the first minimum '
            '(modelled as merge sort on (distance, index) / left-to-right scan; sampled on every case)',
            'NumPy-1 scalar comparison float32 <= Python float is done in double precision (modelled on 64-bit keys)',
            'bit patterns of non-negative IEEE numbers are order-isomorphic to their values (harness sends keys)',
-           'SQLAlchemy/SQLite/h5py return the generated taxonomy, thresholds and signatures unchanged (query kind)']
+           'SQLAlchemy/SQLite/h5py return the generated taxonomy, thresholds and signatures unchanged (query kind)',
+           'queryx/queryenv: the Jaccard distance of two k-mer sets is the binary32 quotient (|A u B| - |A n B|) / |A u B| '
+           '(C02/C05 tie this to the kernel); the k-mer set of a FASTA query file is found by the harness\'s own two-strand '
+           'prefix search (C01 ties it to gambit); csv.DictReader / json.load read back what the exporters wrote',
+           'an N beyond 4096 is sent to the (unary) extracted model as #refs + 1, which selects the same prefix (C09_length)']
 ASSUMPTIONS = ['distances are finite, non-negative, not NaN and not -0.0 (Jaccard distances lie in [0,1])',
                'every reference genome has a taxon; the taxonomy is a forest (acyclic parent pointers)',
                'report_closest N >= 1; the distance row has one entry per reference genome',
-               'reference order = order of db.genomes = order of the signatures in the signature file']
-CORRESPONDENCES = ['row', 'rowenv', 'query']
+               'reference order = order of db.genomes = order of the signatures in the signature file (skipping '
+               'signatures whose ID belongs to no genome)',
+               'rowx f64 rows: distances are finite non-negative doubles (a caller-supplied row; query() itself only '
+               'produces float32 rows)',
+               'databases have k >= 5 (signatures narrower than 16 bits are refused by the distance kernel)']
+CORRESPONDENCES = ['row', 'rowenv', 'query', 'rowx', 'rowseq', 'queryx', 'queryenv']
 BATCH = 400
 
 AVX512 = 'AVX512F AVX512CD AVX512_SKX AVX512_CLX AVX512_CNL AVX512_ICL'
@@ -76,11 +143,26 @@ def div32(a, b):
 # ---------------------------------------------------------------------------------------------
 # case validation / model requests
 
+NTYPES = {'int': None, 'bool': 1, 'int8': 2 ** 7 - 1, 'uint8': 2 ** 8 - 1, 'int16': 2 ** 15 - 1, 'uint16': 2 ** 16 - 1,
+          'int32': 2 ** 31 - 1, 'uint32': 2 ** 32 - 1, 'int64': 2 ** 63 - 1, 'uint64': 2 ** 64 - 1, 'intp': 2 ** 63 - 1}
+DTYPES = ['f4', 'f8', '>f4', '>f8']
+LAYOUTS = ['1d', 'row2d', 'strided', 'negstride', 'col', 'frow', 'readonly', 'unaligned', 'subclass']
+HUGE_N = [2 ** 31 - 1, 2 ** 31, 2 ** 32, 2 ** 63 - 1, 2 ** 63, 2 ** 64, 10 ** 30]
+
+
 def check_case(case):
 	"""raise ValueError for a case outside the property's domain (e.g. produced by shrinking)"""
 	taxa, refs, n = case['taxa'], case['refs'], case['n']
 	if n < 1:
 		raise ValueError('n < 1')
+	nt = case.get('ntype', 'int')
+	if nt not in NTYPES or (NTYPES[nt] is not None and n > NTYPES[nt]):
+		raise ValueError('N does not fit its NumPy type')
+	if case.get('dt', 'f4') not in DTYPES or case.get('layout', '1d') not in LAYOUTS:
+		raise ValueError('unknown row container')
+	if case.get('f64') and case.get('dt') not in ('f8', '>f8'):
+		raise ValueError('double distances need a double container')
+	top = 0x7ff0000000000000 if case.get('f64') else 0x7f800000
 	for t, (par, thr) in enumerate(taxa):
 		if par is not None and not (0 <= par < t):
 			raise ValueError('parent does not precede child')
@@ -89,15 +171,28 @@ def check_case(case):
 	for bits, t in refs:
 		if not (0 <= t < len(taxa)):
 			raise ValueError('taxon index out of range')
-		if not (0 <= bits <= 0x7f800000):
+		if not (0 <= bits <= top):
 			raise ValueError('distance not a non-negative number')
 
 
+def case_keys(case):
+	"""order-isomorphic 64-bit keys of the row's distances (f64 rows carry double bit patterns, which ARE their keys)"""
+	if case.get('f64'):
+		return [b for b, _ in case['refs']]
+	return [key_of_bits(b) for b, _ in case['refs']]
+
+
 def model_args(case):
-	keys = [key_of_bits(b) for b, _ in case['refs']]
+	keys = case_keys(case)
 	taxa = [[[] if par is None else [par], [] if thr is None else [f64_key(thr)]] for par, thr in case['taxa']]
 	gt = [t for _, t in case['refs']]
 	return keys, taxa, gt
+
+
+def model_n(n, nrefs):
+	"""the extracted model counts N in unary: an astronomically large N is sent as nrefs+1, which selects
+	the same prefix (firstn n l = l for every n >= length l; C09_length)"""
+	return n if n <= 4096 else min(n, nrefs + 1)
 
 
 def model_item(ans):
@@ -134,10 +229,13 @@ def build_objs(taxa, gtaxon):
 	return tobjs, genomes
 
 
-def obs_match(m, gidx, tidx):
+def obs_match(m, gidx, tidx, f64=False):
 	import numpy as np
 	d = m.distance
-	bits = int(np.array(d, dtype=np.float32).view(np.uint32)) if np.float32(d) == d else repr(d)
+	if f64:
+		bits = struct.unpack('<q', struct.pack('<d', d))[0]
+	else:
+		bits = int(np.array(d, dtype=np.float32).view(np.uint32)) if np.float32(d) == d else repr(d)
 	return [gidx[id(m.genome)], bits, None if m.matched_taxon is None else tidx[id(m.matched_taxon)]]
 
 
@@ -150,16 +248,21 @@ def impl_row(case):
 	tobjs, genomes = build_objs(taxa, [t for _, t in refs])
 	gidx = {id(g): i for i, g in enumerate(genomes)}
 	tidx = {id(t): i for i, t in enumerate(tobjs)}
-	row = np.array([b for b, _ in refs], dtype=np.uint32).view(np.float32)
-	if case.get('layout') == 'row2d':
-		# as in query(): a row of the 2-D distance matrix
-		mat = np.ones((3, len(refs)), dtype=np.float32)
-		mat[1, :] = row
-		row = mat[1, :]
+	f64 = bool(case.get('f64'))
+	row = make_row([b for b, _ in refs], case.get('dt', 'f4'), case.get('layout', '1d'), f64)
+	if case.get('genomes') == 'tuple':
+		genomes = tuple(genomes)
 	db = SimpleNamespace(genomes=genomes)
 	strict = bool(case.get('strict'))
+	nn = wrap_n(n, case.get('ntype', 'int'))
 	try:
-		item = get_result_item(db, QueryParams(report_closest=n, classify_strict=strict), row, QueryInput('q'))
+		if case.get('call') == 'kw':
+			item = get_result_item(input=QueryInput(label='q', file=None), dists=row, db=db,
+			                       params=QueryParams(report_closest=nn, classify_strict=strict, chunksize=None))
+		elif case.get('call') == 'pos':
+			item = get_result_item(db, QueryParams(strict, 7, nn), row, QueryInput('q', None))
+		else:
+			item = get_result_item(db, QueryParams(report_closest=nn, classify_strict=strict), row, QueryInput('q'))
 	except ValueError:
 		return 'ValueError'
 	except Exception as e:
@@ -167,8 +270,73 @@ def impl_row(case):
 			# the strict classifier's consensus search is C10's subject, not this property's
 			return 'skip:' + type(e).__name__
 		raise
-	return dict(match=obs_match(item.classifier_result.closest_match, gidx, tidx),
-	            closest=[obs_match(m, gidx, tidx) for m in item.closest_genomes])
+	return dict(match=obs_match(item.classifier_result.closest_match, gidx, tidx, f64),
+	            closest=[obs_match(m, gidx, tidx, f64) for m in item.closest_genomes])
+
+
+def wrap_n(n, ntype):
+	"""N as the caller may hold it: a Python int, a bool or a NumPy integer scalar"""
+	import numpy as np
+	if ntype == 'int':
+		return n
+	if ntype == 'bool':
+		return True
+	return getattr(np, ntype)(n)
+
+
+def make_row(bits, dt='f4', layout='1d', f64=False):
+	"""the distance row in the container the case asks for (same values in every container)"""
+	import numpy as np
+	if f64:
+		base = np.array(bits, dtype=np.uint64).view(np.float64)
+	else:
+		base = np.array(bits, dtype=np.uint32).view(np.float32)
+	base = base.astype(np.dtype(dt))        # f4 -> f8 is exact; '>' = non-native byte order
+	m = len(base)
+	if layout == '1d':
+		return base
+	if layout == 'row2d':
+		# as in query(): a row of the 2-D distance matrix
+		mat = np.ones((3, m), dtype=base.dtype)
+		mat[1, :] = base
+		return mat[1, :]
+	if layout == 'strided':
+		big = np.ones(2 * m + 1, dtype=base.dtype)
+		big[1::2] = base
+		return big[1::2]
+	if layout == 'negstride':
+		return base[::-1].copy()[::-1]
+	if layout == 'col':
+		mat = np.ones((m, 3), dtype=base.dtype)
+		mat[:, 1] = base
+		return mat[:, 1]
+	if layout == 'frow':
+		mat = np.ones((3, m), dtype=base.dtype, order='F')
+		mat[1, :] = base
+		return mat[1, :]
+	if layout == 'readonly':
+		base.setflags(write=False)
+		return base
+	if layout == 'unaligned':
+		buf = bytearray(base.nbytes + 1)
+		r = np.ndarray((m,), dtype=base.dtype, buffer=buf, offset=1)
+		r[:] = base
+		return r
+	if layout == 'subclass':
+		return base.view(_row_subclass())
+	raise ValueError('unknown layout')
+
+
+def _row_subclass():
+	import numpy as np
+	global _RowCls
+	try:
+		return _RowCls
+	except NameError:
+		class Row(np.ndarray):
+			pass
+		_RowCls = Row
+		return Row
 
 
 def impl_rows_subprocess(cases, env):
@@ -203,12 +371,13 @@ def nontrivial_row(case):
 	return any(pre[i] == pre[i + 1] for i in range(len(pre) - 1))
 
 
-def judge_row(ctx, kind, case, impl, impl2, model, accepted, where=''):
+def judge_row(ctx, kind, case, impl, impl2, model, accepted, where='', report=None):
 	"""impl/impl2: two evaluations of the implementation; model: decoded model item; accepted: the
 	extracted checker's verdict on the implementation's index list"""
 	bits = [b for b, _ in case['refs']]
+	rep = case if report is None else report     # what a violation names (the enclosing multi-step case)
 	if impl != impl2:
-		ctx.violation(kind, case, f'two identical calls{where} returned different closest-genomes lists', impl=impl, impl_again=impl2, model=model)
+		ctx.violation(kind, rep, f'two identical calls{where} returned different closest-genomes lists', impl=impl, impl_again=impl2, model=model)
 		return
 	if isinstance(impl, str) and impl.startswith('skip:'):
 		ctx.count('not-judged:strict-classifier-' + impl[5:])
@@ -218,28 +387,28 @@ def judge_row(ctx, kind, case, impl, impl2, model, accepted, where=''):
 			if not case['refs']:
 				ctx.broke(f'correspondence {kind} (empty reference list)', f'impl={impl} model={model}')
 			else:
-				ctx.violation(kind, case, f'get_result_item{where} -> {impl}, model -> {model}', impl=impl, model=model)
+				ctx.violation(kind, rep, f'get_result_item{where} -> {impl}, model -> {model}', impl=impl, model=model)
 		return
 	lst = impl['closest']
 	idxs = [e[0] for e in lst]
 	if not accepted:
 		exp = [e[0] for e in model['closest']]
 		pos = next((i for i, (a, b) in enumerate(zip(idxs, exp)) if a != b), min(len(idxs), len(exp)))
-		ctx.violation(kind, case, f'closest_genomes{where} is not the (distance, reference order) prefix: reference indices '
+		ctx.violation(kind, rep, f'closest_genomes{where} is not the (distance, reference order) prefix: reference indices '
 		              f'{idxs[:12]}{"..." if len(idxs) > 12 else ""}, expected {exp[:12]}{"..." if len(exp) > 12 else ""} '
 		              f'(first difference at position {pos})', impl=impl, spec=exp, model=model)
 		return
 	for i, db_, _ in lst:
 		if db_ != bits[i]:
-			ctx.violation(kind, case, f'entry for reference {i}{where} carries distance bits {db_}, the row has {bits[i]}', impl=impl, model=model)
+			ctx.violation(kind, rep, f'entry for reference {i}{where} carries distance bits {db_}, the row has {bits[i]}', impl=impl, model=model)
 			return
 	if lst and lst[0] != impl['match']:
-		ctx.violation(kind, case, f'closest_genomes[0]{where} = {lst[0]} but classifier closest_match = {impl["match"]} '
+		ctx.violation(kind, rep, f'closest_genomes[0]{where} = {lst[0]} but classifier closest_match = {impl["match"]} '
 		              '(JSON and CSV would name different closest genomes)', impl=impl, model=model)
 		return
 	mt = [e[2] for e in model['closest']]
 	if [e[2] for e in lst] != mt or impl['match'][2] != model['match'][2]:
-		ctx.violation(kind, case, f'matched taxa{where} {[e[2] for e in lst]} / {impl["match"][2]} differ from what the distance '
+		ctx.violation(kind, rep, f'matched taxa{where} {[e[2] for e in lst]} / {impl["match"][2]} differ from what the distance '
 		              f'alone assigns {mt} / {model["match"][2]}', impl=impl, model=model)
 		return
 	mod = dict(match=[model['match'][0], bits[model['match'][0]], model['match'][2]],
@@ -257,9 +426,9 @@ def _rows(ctx, kind, cases, evaluate):
 	reqs = []
 	for c, (a, _) in zip(good, results):
 		keys, taxa, gt = model_args(c)
-		reqs.append((903, [c['n'], keys, taxa, gt]))
+		reqs.append((903, [model_n(c['n'], len(keys)), keys, taxa, gt]))
 		idxs = [e[0] for e in a['closest']] if isinstance(a, dict) else []
-		reqs.append((911, [c['n'], keys, idxs]))
+		reqs.append((911, [model_n(c['n'], len(keys)), keys, idxs]))
 		reqs.append((912, [keys, taxa, gt]))
 	ans = ctx.model(reqs) if ctx.model_ok else None
 	for j, (c, (a, b)) in enumerate(zip(good, results)):
@@ -277,6 +446,12 @@ def _rows(ctx, kind, cases, evaluate):
 
 def k_row(ctx, cases):
 	_rows(ctx, 'row', cases, lambda cs: [[impl_row(c), impl_row(c)] for c in cs])
+
+
+def k_rowx(ctx, cases):
+	"""argument forms of get_result_item (N as NumPy scalar / huge, row dtype / byte order / strides /
+	alignment / sub-class, tuple of genomes, keyword or positional call); same judgement as 'row'"""
+	_rows(ctx, 'rowx', cases, lambda cs: [[impl_row(c), impl_row(c)] for c in cs])
 
 
 def k_rowenv(ctx, cases):
@@ -316,16 +491,27 @@ def build_db(case, d):
 		                     parent=None if par is None else tobjs[par]))
 	refs = case['refs']
 	order = case.get('sqlorder') or list(range(len(refs)))
+	descs = case.get('descs') or [f'genome {i}' for i in range(len(refs))]
+	idattr = case.get('idattr', 'refseq_acc')
 	for i in order:
-		g = M.Genome(key=f'g{i}', description=f'genome {i}', refseq_acc=f'ACC{i}')
+		g = M.Genome(key=f'g{i}', description=descs[i], refseq_acc=f'ACC{i}', genbank_acc=f'GB{i}' if idattr == 'genbank_acc' else None)
 		s.add(M.AnnotatedGenome(genome=g, genome_set=gs, taxon=tobjs[refs[i][1]]))
 	s.commit()
 	s.close()
 	eng.dispose()
 	kspec = KmerSpec(case['k'], 'AT')
-	sigs = SignatureList([np.array(sorted(set(r[0])), dtype=kspec.index_dtype) for r in refs], kspec)
-	dump_signatures(os.path.join(d, 'db.gs'), AnnotatedSignatures(sigs, [f'ACC{i}' for i in range(len(refs))],
-	                                                              SignaturesMeta(id_attr='refseq_acc')), 'hdf5')
+	# the signature file: the references in order, with unrelated signatures (IDs of no genome) put before
+	# reference number `pos` (pos = number of references: at the end) when the case has 'extras'
+	idof = {'refseq_acc': 'ACC%d', 'genbank_acc': 'GB%d', 'key': 'g%d'}[idattr]
+	entries = []
+	extras = sorted(enumerate(case.get('extras') or []), key=lambda x: x[1][0])
+	for i, r in enumerate(refs):
+		entries += [(f'UNRELATED{j}', sig) for j, (pos, sig) in extras if pos == i]
+		entries.append((idof % i, r[0]))
+	entries += [(f'UNRELATED{j}', sig) for j, (pos, sig) in extras if pos >= len(refs)]
+	sigs = SignatureList([np.array(sorted(set(sig)), dtype=kspec.index_dtype) for _, sig in entries], kspec)
+	dump_signatures(os.path.join(d, 'db.gs'), AnnotatedSignatures(sigs, [id_ for id_, _ in entries],
+	                                                              SignaturesMeta(id_attr=idattr)), 'hdf5')
 	qd = os.path.join(d, 'q')
 	os.makedirs(qd)
 	qsigs = SignatureList([np.array(sorted(set(q)), dtype=kspec.index_dtype) for q in case['queries']], kspec)
@@ -458,7 +644,678 @@ def k_query(ctx, cases):
 			shutil.rmtree(d, ignore_errors=True)
 
 
-KINDS = {'row': k_row, 'rowenv': k_rowenv, 'query': k_query}
+# ---------------------------------------------------------------------------------------------
+# caller-supplied objects reused across calls (one database object, one QueryParams, one buffer)
+
+def check_seq_case(case):
+	if not case['steps'] or not case['gt']:
+		raise ValueError('empty')
+	if case.get('mutate') not in ('none', 'params', 'buffer', 'both'):
+		raise ValueError('mutate')
+	for st in case['steps']:
+		if len(st['bits']) != len(case['gt']):
+			raise ValueError('row length differs from the number of references')
+		check_case(step_row(case, st))
+
+
+def step_row(case, st):
+	return dict(n=st['n'], taxa=case['taxa'], refs=[[b, t] for b, t in zip(st['bits'], case['gt'])])
+
+
+def impl_rowseq(case):
+	"""every step is a get_result_item call on the SAME database object; depending on case['mutate'] also
+	on the same QueryParams instance (report_closest reassigned) and / or the same ndarray (overwritten in
+	place).  The whole sequence is run twice.  -> per step [observation pass 1, observation pass 2,
+	observation of pass 1's retained result object after everything else has run]"""
+	import numpy as np
+	from types import SimpleNamespace
+	from gambit.query import get_result_item, QueryParams, QueryInput
+	taxa, gt, steps, mutate = case['taxa'], case['gt'], case['steps'], case['mutate']
+	tobjs, genomes = build_objs(taxa, gt)
+	gidx = {id(g): i for i, g in enumerate(genomes)}
+	tidx = {id(t): i for i, t in enumerate(tobjs)}
+	db = SimpleNamespace(genomes=genomes)
+	shared = QueryParams(report_closest=steps[0]['n'])
+	buf = np.empty(len(gt), dtype=np.float32)
+	inp = QueryInput('q')
+	obs = lambda item: dict(match=obs_match(item.classifier_result.closest_match, gidx, tidx),
+	                        closest=[obs_match(m, gidx, tidx) for m in item.closest_genomes])
+	out = [[None, None, None] for _ in steps]
+	kept = []
+	for rep in range(2):
+		for j, st in enumerate(steps):
+			if mutate in ('params', 'both'):
+				shared.report_closest = st['n']
+				params = shared
+			else:
+				params = QueryParams(report_closest=st['n'])
+			row = np.array(st['bits'], dtype=np.uint32).view(np.float32)
+			if mutate in ('buffer', 'both'):
+				buf[:] = row
+				row = buf
+			try:
+				item = get_result_item(db, params, row, inp)
+			except ValueError:
+				out[j][rep] = 'ValueError'
+				continue
+			out[j][rep] = obs(item)
+			if rep == 0:
+				kept.append((j, item))
+	for j, item in kept:
+		out[j][2] = obs(item)
+	return out
+
+
+def k_rowseq(ctx, cases):
+	for case in cases:
+		check_seq_case(case)
+		res = impl_rowseq(case)
+		rows = [step_row(case, st) for st in case['steps']]
+		reqs = []
+		for r, (a, _, _) in zip(rows, res):
+			keys, taxa, gt = model_args(r)
+			reqs.append((903, [model_n(r['n'], len(keys)), keys, taxa, gt]))
+			reqs.append((911, [model_n(r['n'], len(keys)), keys, [e[0] for e in a['closest']] if isinstance(a, dict) else []]))
+		reqs.append((912, model_args(rows[0])))
+		ans = ctx.model(reqs) if ctx.model_ok else None
+		ctx.case(case, nontrivial=len(case['steps']) > 1 and any(nontrivial_row(r) for r in rows))
+		if ans is not None and ans[-1] != 1:
+			raise ValueError('harness generated a database the model calls ill-formed')
+		for j, (r, (a, b, late)) in enumerate(zip(rows, res)):
+			where = f' (step {j} of a sequence of calls sharing the database object, mutate={case["mutate"]})'
+			if late is not None and late != a:
+				ctx.violation('rowseq', case, f'the result returned by step {j} changed after later calls on the same objects: '
+				              f'{[e[0] for e in a["closest"]][:12]} -> {[e[0] for e in late["closest"]][:12]}', impl=a, impl_later=late)
+				break
+			if ans is None:
+				if isinstance(a, dict) and a['closest'] and a['closest'][0] != a['match']:
+					ctx.violation('rowseq', case, f'closest_genomes[0] = {a["closest"][0]} but closest_match = {a["match"]}{where}', impl=a)
+					break
+				continue
+			nv = len(ctx.violations)
+			judge_row(ctx, 'rowseq', r, a, b, model_item(ans[2 * j]), ans[2 * j + 1] == 1, where, report=case)
+			if len(ctx.violations) > nv:
+				break
+
+
+# ---------------------------------------------------------------------------------------------
+# whole queries: other entry points, argument forms, containers, channels (queryx / queryenv)
+
+ODD_NAMES = ['Escherichia coli, K-12 "MG1655"', 'genome;with;semicolons', " leading and trailing ", 'Üñíçødé 菌株',
+             "it's 'quoted'", 'tab\there', '0', 'None', 'null', 'a,b,,c', '""', 'x' * 300, '=1+1', '#comment']
+QFORMS = ['siglist', 'sigarray', 'list', 'iter', 'u64', 'hdf5', 'tuple']
+CALLS = ['params', 'kw', 'kwnp', 'inputs', 'shared', 'parse']
+DBFORMS = ['dir', 'files', 'mem']
+IDATTRS = ['refseq_acc', 'genbank_acc', 'key']
+
+
+def _rc(s):
+	return s[::-1].translate(str.maketrans('ACGTN', 'TGCAN'))
+
+
+def kmer_str(v, k):
+	return ''.join('ACGT'[(v >> (2 * (k - 1 - i))) & 3] for i in range(k))
+
+
+def spec_signature(seq, k, prefix='AT'):
+	"""the k-mer set of a sequence by direct search on both strands (the harness's own definition; C01 is the
+	property that ties gambit's search to it)"""
+	out = set()
+	for strand in (seq, _rc(seq)):
+		i = strand.find(prefix)
+		while i >= 0:
+			km = strand[i + len(prefix):i + len(prefix) + k]
+			if len(km) == k and all(c in 'ACGT' for c in km):
+				v = 0
+				for c in km:
+					v = v * 4 + 'ACGT'.index(c)
+				out.add(v)
+			i = strand.find(prefix, i + 1)
+	return sorted(out)
+
+
+def query_seq(q, k):
+	"""a sequence whose k-mer set contains q (reverse-strand hits may add more; spec_signature says which)"""
+	return 'N'.join('AT' + kmer_str(v, k) for v in q) or 'NNNN'
+
+
+def check_queryx_case(case):
+	check_query_case(case)
+	nr = len(case['refs'])
+	if case.get('descs') is not None and len(case['descs']) != nr:
+		raise ValueError('descs')
+	for pos, sig in case.get('extras') or []:
+		if not (0 <= pos <= nr) or any(not (0 <= v < 4 ** case['k']) for v in sig):
+			raise ValueError('extras')
+	if case.get('idattr', 'refseq_acc') not in IDATTRS or case.get('dbform', 'dir') not in DBFORMS:
+		raise ValueError('idattr/dbform')
+	for c in case.get('configs') or []:
+		if c['n'] < 1 or c['qform'] not in QFORMS or c['call'] not in CALLS or (c['chunk'] is not None and c['chunk'] < 1):
+			raise ValueError('config')
+		if c.get('pk', 'none') not in ('none', 'threads', 'processes') or (c.get('threads') or 1) < 1:
+			raise ValueError('config')
+	for c in case.get('cli') or []:
+		if c['input'] not in ('sig', 'files', 'listfile') or c['dbarg'] not in ('-d', 'env'):
+			raise ValueError('cli config')
+
+
+def actual_queries(case, parse):
+	"""the k-mer sets the implementation is expected to see for the case's queries"""
+	if parse:
+		return [spec_signature(query_seq(sorted(set(q)), case['k']), case['k']) for q in case['queries']]
+	return [sorted(set(q)) for q in case['queries']]
+
+
+def query_rows(case, queries, n):
+	return [dict(n=n, taxa=case['taxa'], refs=[[jaccard_bits(q, r[0]), r[1]] for r in case['refs']]) for q in queries]
+
+
+def write_query_files(case, d):
+	"""FASTA files (one per query) + a list file; -> paths"""
+	qd = os.path.join(d, 'q')
+	paths = []
+	for i, q in enumerate(case['queries']):
+		p = os.path.join(qd, f'query {i}.fasta' if i % 2 else f'query{i}.fa')
+		seq = query_seq(sorted(set(q)), case['k'])
+		with open(p, 'w') as f:
+			if i % 3 == 2 and len(seq) > 12:
+				# two records: the k-mer set of a file is the union over its records ('N' separates the k-mers)
+				cut = seq.index('N', len(seq) // 3) if 'N' in seq[len(seq) // 3:] else len(seq)
+				f.write(f'>q{i}a\n{seq[:cut]}\n>q{i}b\n{seq[cut:] or "N"}\n')
+			else:
+				f.write(f'>q{i} some description\n{seq}\n')
+		paths.append(p)
+	with open(os.path.join(qd, 'list.txt'), 'w') as f:
+		f.write(''.join(os.path.basename(p) + '\n' for p in paths))
+	return paths
+
+
+def file_signature(case, i):
+	"""k-mer set of query file i as written by write_query_files (records are searched separately)"""
+	seq = query_seq(sorted(set(case['queries'][i])), case['k'])
+	if i % 3 == 2 and len(seq) > 12:
+		cut = seq.index('N', len(seq) // 3) if 'N' in seq[len(seq) // 3:] else len(seq)
+		parts = [seq[:cut], seq[cut:] or 'N']
+	else:
+		parts = [seq]
+	out = set()
+	for p in parts:
+		out.update(spec_signature(p, case['k']))
+	return sorted(out)
+
+
+def open_db(case, d):
+	"""the reference database in the form the case asks for"""
+	from gambit.db import ReferenceDatabase
+	form = case.get('dbform', 'dir')
+	if form == 'dir':
+		return ReferenceDatabase.load_from_dir(d)
+	if form == 'files':
+		return ReferenceDatabase.load(os.path.join(d, 'db.gdb'), os.path.join(d, 'db.gs'))
+	# in memory: the signatures as a SignatureArray wrapped with the file's ids / metadata
+	from gambit.db.refdb import load_genomeset
+	from gambit.sigs import load_signatures, AnnotatedSignatures, SignatureArray
+	_, gset = load_genomeset(os.path.join(d, 'db.gdb'))
+	with load_signatures(os.path.join(d, 'db.gs')) as f:
+		arr = f[:]
+		mem = AnnotatedSignatures(arr if isinstance(arr, SignatureArray) else SignatureArray(arr), list(f.ids), f.meta)
+	return ReferenceDatabase(gset, mem)
+
+
+def close_db(db):
+	try:
+		db.session.close()
+		db.session.get_bind().dispose()
+		if hasattr(db.signatures, 'close'):
+			db.signatures.close()
+	except Exception:
+		pass
+
+
+def query_form(qsets, form, kspec, d):
+	"""the query signatures in the container the configuration asks for"""
+	import numpy as np
+	from gambit.sigs import SignatureList, SignatureArray, load_signatures
+	arrs = [np.array(q, dtype=kspec.index_dtype) for q in qsets]
+	if form == 'siglist':
+		return SignatureList(arrs, kspec)
+	if form == 'sigarray':
+		return SignatureArray(arrs, kspec)
+	if form == 'list':
+		return arrs
+	if form == 'tuple':
+		return tuple(arrs)
+	if form == 'iter':
+		return iter(arrs)
+	if form == 'u64':
+		return [np.array(q, dtype=np.uint64) for q in qsets]
+	if form == 'hdf5':
+		return load_signatures(os.path.join(d, 'q', 'q.gs'))
+	raise ValueError(form)
+
+
+def run_config(db, case, cfg, d, shared, qsets, files):
+	"""one API call -> (list of observations per query, results object), or 'skip:<exception>' for a
+	strict-classifier error / 'error:...' for any other exception"""
+	import numpy as np
+	from gambit.query import query, query_parse, QueryParams
+	from gambit.seq import SequenceFile
+	from gambit.kmers import KmerSpec
+	kspec = KmerSpec(case['k'], 'AT')
+	n, cs, strict, call = cfg['n'], cfg['chunk'], bool(cfg.get('strict')), cfg['call']
+	gidx = {g.genome.key: i for i, g in enumerate(db.genomes)}
+	if cfg.get('threads'):
+		from gambit._cython.threads import omp_set_num_threads
+		omp_set_num_threads(cfg['threads'])
+	try:
+		if call == 'parse':
+			sf = [SequenceFile(p, 'fasta') for p in files]
+			pk = dict(none=dict(concurrency=None), threads=dict(concurrency='threads', max_workers=2),
+			          processes=dict(max_workers=2))[cfg.get('pk', 'none')]
+			if cfg['qform'] in ('siglist', 'list', 'u64'):
+				res = query_parse(db, sf, QueryParams(report_closest=n, chunksize=cs, classify_strict=strict),
+				                  file_labels=[f'label {i}' for i in range(len(sf))], parse_kw=pk)
+			else:
+				res = query_parse(db, sf, report_closest=n, chunksize=cs, classify_strict=strict, parse_kw=pk)
+		else:
+			qs = query_form(qsets, cfg['qform'], kspec, d)
+			try:
+				if call == 'params':
+					res = query(db, qs, QueryParams(report_closest=n, chunksize=cs, classify_strict=strict))
+				elif call == 'kw':
+					res = query(db, qs, report_closest=n, chunksize=cs, classify_strict=strict)
+				elif call == 'kwnp':
+					res = query(db, qs, params=None, report_closest=np.int64(n), classify_strict=strict,
+					            chunksize=None if cs is None else np.int64(cs))
+				elif call == 'inputs':
+					res = query(db, qs, QueryParams(strict, cs, n), inputs=[f'in {i}' for i in range(len(qsets))], progress=None)
+				else:
+					shared.report_closest, shared.chunksize, shared.classify_strict = n, cs, strict
+					res = query(db, qs, shared)
+			finally:
+				if hasattr(qs, 'close'):
+					qs.close()
+	except Exception as e:
+		if strict:
+			return 'skip:' + type(e).__name__
+		return f'error:{type(e).__name__}: {e}'
+	om = lambda m: [gidx[m.genome.genome.key], f32_bits(float(m.distance)),
+	                None if m.matched_taxon is None else int(m.matched_taxon.key[1:])]
+	return [dict(match=om(it.classifier_result.closest_match), closest=[om(m) for m in it.closest_genomes]) for it in res.items], res
+
+
+def export_outputs(res, d, tag, pretty):
+	"""the exporter classes applied directly to a results object (any N, unlike the CLI) -> {fmt: parsed}"""
+	import csv
+	from gambit.results import CSVResultsExporter, JSONResultsExporter, ResultsArchiveWriter
+	outs = {}
+	for fmt, exp in (('csv', CSVResultsExporter()), ('json', JSONResultsExporter(pretty=pretty)), ('archive', ResultsArchiveWriter(pretty=not pretty))):
+		out = os.path.join(d, 'q', f'exp-{tag}.{fmt}')
+		if pretty:
+			with open(out, 'w') as f:
+				exp.export(f, res)
+		else:
+			exp.export(out, res)
+		if fmt == 'csv':
+			with open(out, newline='') as f:
+				outs[fmt] = list(csv.DictReader(f))
+		else:
+			with open(out) as f:
+				outs[fmt] = json.load(f)['items']
+	return outs
+
+
+def model_lists(ctx, case, qsets, ns):
+	"""{n: [expected observation per query]} from the model (None without the model)"""
+	if not ctx.model_ok:
+		return None
+	rows = query_rows(case, qsets, 1)
+	reqs = []
+	for r in rows:
+		check_case(r)
+		keys, taxa, gt = model_args(r)
+		for n in ns:
+			reqs.append((903, [model_n(n, len(keys)), keys, taxa, gt]))
+	ans = ctx.model(reqs)
+	out = {n: [] for n in ns}
+	for qi, r in enumerate(rows):
+		bits = [b for b, _ in r['refs']]
+		for j, n in enumerate(ns):
+			m = model_item(ans[qi * len(ns) + j])
+			out[n].append(dict(match=[m['match'][0], bits[m['match'][0]], m['match'][2]],
+			                   closest=[[e[0], bits[e[0]], e[2]] for e in m['closest']]))
+	return out
+
+
+def cli_outputs(d, cfg, files, tag):
+	"""run `gambit query` for csv, json and archive -> {fmt: parsed} or 'skip:...' (strict-classifier error)"""
+	import csv
+	import gc
+	import gambit.cli
+	from click.testing import CliRunner
+	outs = {}
+	for fmt in ('csv', 'json', 'archive'):
+		out = os.path.join(d, 'q', f'out-{tag}.{fmt}')
+		args, env = [], {}
+		if cfg['dbarg'] == '-d':
+			args += ['-d', d]
+		else:
+			env['GAMBIT_DB_PATH'] = d
+		args += ['query', '-o', out, '-f', fmt]
+		if cfg.get('strict') is not None:
+			args += ['--strict' if cfg['strict'] else '--no-strict']
+		if cfg.get('cores'):
+			args += ['-c', str(cfg['cores'])]
+		if cfg['input'] == 'sig':
+			args += ['-s', os.path.join(d, 'q', 'q.gs')]
+		elif cfg['input'] == 'files':
+			args += files
+		else:
+			args += ['-l', os.path.join(d, 'q', 'list.txt'), '--ldir', os.path.join(d, 'q')]
+		r = CliRunner(env=env).invoke(gambit.cli.cli, args)
+		if files:
+			# the command leaves its database session to the garbage collector; collect it here, in this thread,
+			# rather than in a worker thread of a later parsing pool (SQLite objects are bound to their thread)
+			gc.collect()
+		if r.exit_code != 0:
+			if cfg.get('strict'):
+				return 'skip:' + type(r.exception).__name__
+			return f'error:gambit {" ".join(args)} -> exit {r.exit_code}, {r.exception!r}'
+
+		if fmt == 'csv':
+			with open(out, newline='') as f:
+				outs[fmt] = list(csv.DictReader(f))
+		else:
+			with open(out) as f:
+				outs[fmt] = json.load(f)['items']
+	return outs
+
+
+def judge_cli(ctx, kind, case, outs, exp, descs, where):
+	"""CSV / JSON / archive of one CLI configuration against each other and against the model's N=10 list.
+	-> True when a violation was reported"""
+	import numpy as np
+	tkey = lambda t: None if t is None else int(t['key'][1:])
+	nq = len(case['queries'])
+	if not (len(outs['csv']) == len(outs['json']) == len(outs['archive']) == nq):
+		ctx.violation(kind, case, f'CLI{where}: {len(outs["csv"])} CSV rows / {len(outs["json"])} JSON items / '
+		              f'{len(outs["archive"])} archive items for {nq} queries')
+		return True
+	for qi in range(nq):
+		crow, jit, ait = outs['csv'][qi], outs['json'][qi], outs['archive'][qi]
+		cd = crow['closest.description']
+		jl = [[int(g['genome']['key'][1:]), f32_bits(g['distance']) if np.float32(g['distance']) == g['distance'] else repr(g['distance']),
+		       tkey(g['matched_taxon'])] for g in jit['closest_genomes']]
+		jd = [g['genome']['description'] for g in jit['closest_genomes']]
+		al = [[int(g['genome']['key'][1:]), f32_bits(g['distance']) if np.float32(g['distance']) == g['distance'] else repr(g['distance']),
+		       tkey(g['matched_taxon'])] for g in ait['closest_genomes']]
+		am = ait['classifier_result']['closest_match']
+		am = [int(am['genome']['key'][1:]), f32_bits(am['distance']) if np.float32(am['distance']) == am['distance'] else repr(am['distance']),
+		      tkey(am['matched_taxon'])]
+		vals = dict(csv=dict(crow), json=jl, archive=al, archive_match=am, model=None if exp is None else exp[qi])
+		if not jd or jd[0] != cd:
+			ctx.violation(kind, case, f'CLI query #{qi}{where}: CSV closest.description = {cd!r} but JSON closest_genomes[0] = {jd[:1]}', **vals)
+			return True
+		if jl != al:
+			ctx.violation(kind, case, f'CLI query #{qi}{where}: JSON closest_genomes {[e[0] for e in jl][:12]} differs from the archive\'s '
+			              f'{[e[0] for e in al][:12]} (same command, same input)', **vals)
+			return True
+		if not al or al[0] != am:
+			ctx.violation(kind, case, f'CLI query #{qi}{where}: archive closest_genomes[0] = {al[:1]} but classifier closest_match = {am}', **vals)
+			return True
+		try:
+			cbits = f32_bits(np.float32(float(crow['closest.distance'])))
+		except ValueError:
+			cbits = crow['closest.distance']
+		if cbits != jl[0][1]:
+			ctx.violation(kind, case, f'CLI query #{qi}{where}: CSV closest.distance {crow["closest.distance"]!r} is not the distance '
+			              f'of JSON closest_genomes[0] (float32 bits {jl[0][1]})', **vals)
+			return True
+		if exp is None:
+			continue
+		e = exp[qi]
+		if jl != e['closest'] or am != e['match']:
+			what = ('is not the (distance, reference order) prefix' if [x[0] for x in jl] != [x[0] for x in e['closest']]
+			        else 'does not carry the exact distances / the taxa the distance alone assigns')
+			ctx.violation(kind, case, f'CLI query #{qi}{where}: JSON closest_genomes {[x[0] for x in jl][:12]} {what}; expected '
+			              f'{[x[0] for x in e["closest"]][:12]} / match {e["match"][0]}', **vals)
+			return True
+		if cd != descs[e['match'][0]] or jd != [descs[x[0]] for x in e['closest']]:
+			ctx.violation(kind, case, f'CLI query #{qi}{where}: descriptions {cd!r} / {jd[:6]} are not those of the expected genomes '
+			              f'{[x[0] for x in e["closest"]][:6]}', **vals)
+			return True
+	return False
+
+
+def k_queryx(ctx, cases):
+	import gc
+	import shutil
+	from vf import impl as vimpl
+	from gambit.query import QueryParams
+	for case in cases:
+		check_queryx_case(case)
+		cfgs, clis = case.get('configs') or [], case.get('cli') or []
+		need_files = any(c['call'] == 'parse' for c in cfgs) or any(c['input'] != 'sig' for c in clis)
+		q_sig = actual_queries(case, False)
+		q_file = [file_signature(case, i) for i in range(len(case['queries']))] if need_files else None
+		ns = sorted({c['n'] for c in cfgs} | {10})
+		exp_sig = model_lists(ctx, case, q_sig, ns)
+		exp_file = model_lists(ctx, case, q_file, ns) if need_files else None
+		ctx.case(case, nontrivial=any(nontrivial_row(r) for n in ns for r in query_rows(case, q_sig, n)))
+		descs = case.get('descs') or [f'genome {i}' for i in range(len(case['refs']))]
+		d = vimpl.scratch_dir('gambit-verif-c09-')
+		db = None
+		try:
+			build_db(case, d)
+			files = write_query_files(case, d) if need_files else []
+			db = open_db(case, d)
+			if [g.genome.key for g in db.genomes] != [f'g{i}' for i in range(len(case['refs']))]:
+				ctx.broke('correspondence queryx (reference order)', f'db.genomes order {[g.genome.key for g in db.genomes][:10]}')
+				continue
+			shared = QueryParams()
+			seen = {}
+			bad = False
+			for ci, cfg in enumerate(cfgs):
+				parse = cfg['call'] == 'parse'
+				obs = run_config(db, case, cfg, d, shared, q_sig, files)
+				res = None
+				if not isinstance(obs, str):
+					obs, res = obs
+				where = f'config #{ci} {json.dumps(cfg, sort_keys=True)} on a database opened as {case.get("dbform", "dir")!r}'
+				if isinstance(obs, str) and obs.startswith('error:'):
+					# a well-formed database and well-formed queries, yet no result at all: the model has a list
+					ctx.broke('correspondence queryx (the query raised instead of returning results)',
+					          f'{where}: {obs[6:][:300]}; case {json.dumps(case)[:600]}')
+					bad = True
+					break
+				if isinstance(obs, str):
+					ctx.count('not-judged:strict-classifier-' + obs[5:])
+					continue
+				key = (cfg['n'], parse)
+				if key in seen and seen[key][1] != obs:
+					ctx.violation('queryx', case, f'closest-genomes lists differ between config #{seen[key][0]} and {where} '
+					              '(same database, same queries, same N)', impl_first=seen[key][1], impl=obs)
+					bad = True
+					break
+				seen.setdefault(key, (ci, obs))
+				exp = exp_file if parse else exp_sig
+				for qi, o in enumerate(obs):
+					if o['closest'] and o['closest'][0] != o['match']:
+						ctx.violation('queryx', case, f'query #{qi}, {where}: closest_genomes[0] = {o["closest"][0]} but closest_match = {o["match"]}', impl=o)
+						bad = True
+						break
+					if exp is not None and o != exp[cfg['n']][qi]:
+						e = exp[cfg['n']][qi]
+						ctx.violation('queryx', case, f'query #{qi}, {where}: closest_genomes {[x[0] for x in o["closest"]][:12]} / match '
+						              f'{o["match"][0]} is not the (distance, reference order) prefix with exact distances and taxa; '
+						              f'expected {[x[0] for x in e["closest"]][:12]} / match {e["match"][0]}', impl=o, model=e)
+						bad = True
+						break
+				# the exporters on this results object (the CLI only ever exports N = 10)
+				if not bad and judge_cli(ctx, 'queryx', case, export_outputs(res, d, ci, ci % 2 == 1), None if exp is None else exp[cfg['n']],
+				                         descs, f' (exporters applied to the result of {where})'):
+					bad = True
+				if bad:
+					break
+			if bad:
+				continue
+			for ci, cfg in enumerate(clis):
+				outs = cli_outputs(d, cfg, files, ci)
+				if isinstance(outs, str) and outs.startswith('error:'):
+					ctx.broke('correspondence queryx (the command failed instead of writing results)',
+					          f'{outs[6:][:400]}; case {json.dumps(case)[:600]}')
+					break
+				if isinstance(outs, str):
+					ctx.count('not-judged:strict-classifier-' + outs[5:])
+					continue
+				exp = exp_sig if cfg['input'] == 'sig' else exp_file
+				if judge_cli(ctx, 'queryx', case, outs, None if exp is None else exp[10], descs, f' ({json.dumps(cfg, sort_keys=True)})'):
+					break
+		finally:
+			if db is not None:
+				close_db(db)
+			db = None
+			gc.collect()
+			shutil.rmtree(d, ignore_errors=True)
+
+
+def qworker():
+	"""sub-process side of 'queryenv': [[dir, n, chunks, cores], ...] on stdin -> per database
+	dict(api={chunk: obs}, csv=rows, json=items)"""
+	import csv
+	import gambit.cli
+	from click.testing import CliRunner
+	from gambit.db import ReferenceDatabase
+	from gambit.query import query, QueryParams
+	from gambit.sigs import load_signatures
+
+	def one(d, n, chunks, cores):
+		db = ReferenceDatabase.load_from_dir(d)
+		gidx = {g.genome.key: i for i, g in enumerate(db.genomes)}
+		om = lambda m: [gidx[m.genome.genome.key], f32_bits(float(m.distance)),
+		                None if m.matched_taxon is None else int(m.matched_taxon.key[1:])]
+		api = []
+		with load_signatures(os.path.join(d, 'q', 'q.gs')) as qs:
+			for cs in chunks:
+				res = query(db, qs, QueryParams(report_closest=n, chunksize=cs))
+				api.append([dict(match=om(it.classifier_result.closest_match), closest=[om(m) for m in it.closest_genomes])
+				            for it in res.items])
+		close_db(db)
+		r = {}
+		for fmt in ('csv', 'json'):
+			o = os.path.join(d, 'q', f'env.{fmt}')
+			args = ['-d', d, 'query', '-o', o, '-f', fmt, '-s', os.path.join(d, 'q', 'q.gs')] + (['-c', str(cores)] if cores else [])
+			x = CliRunner().invoke(gambit.cli.cli, args)
+			if x.exit_code != 0:
+				raise RuntimeError(f'gambit query failed: {x.output} {x.exception!r}')
+			if fmt == 'csv':
+				with open(o, newline='') as f:
+					r[fmt] = [[row['closest.description'], row['closest.distance']] for row in csv.DictReader(f)]
+			else:
+				with open(o) as f:
+					r[fmt] = [[[g['genome']['key'], g['genome']['description'], g['distance'],
+					            None if g['matched_taxon'] is None else g['matched_taxon']['key']] for g in it['closest_genomes']]
+					          for it in json.load(f)['items']]
+		return dict(api=api, csv=r['csv'], json=r['json'])
+
+	out = []
+	for d, n, chunks, cores in json.load(sys.stdin):
+		try:
+			out.append(one(d, n, chunks, cores))
+		except Exception as e:
+			out.append(dict(error=f'{type(e).__name__}: {e}'))
+	json.dump(out, sys.stdout)
+
+
+def k_queryenv(ctx, cases):
+	"""whole queries (distance kernel + classification + export) in sub-processes whose environment selects the
+	CPU features NumPy dispatches on and the OpenMP thread count; every environment must give the model's lists"""
+	import shutil
+	import numpy as np
+	from vf import impl as vimpl
+	top = vimpl.scratch_dir('gambit-verif-c09-env-')
+	try:
+		dirs, exps = [], []
+		for i, case in enumerate(cases):
+			check_queryx_case(case)
+			if not case.get('envs'):
+				raise ValueError('no environment')
+			d = os.path.join(top, f'db{i}')
+			os.makedirs(d)
+			build_db(case, d)
+			dirs.append(d)
+			qs = actual_queries(case, False)
+			exps.append(model_lists(ctx, case, qs, sorted({case['n'], 10})))
+			ctx.case(case, nontrivial=any(nontrivial_row(r) for r in query_rows(case, qs, case['n'])))
+		groups = {}
+		for i, case in enumerate(cases):
+			for env in case['envs']:
+				groups.setdefault(json.dumps(env, sort_keys=True), []).append(i)
+		first = {}
+		flagged = set()
+		for k, idxs in groups.items():
+			env = json.loads(k)
+			e = dict(os.environ)
+			e['OMP_WAIT_POLICY'] = 'passive'        # idle OpenMP threads sleep instead of spinning (speed only)
+			e.update(env)
+			p = subprocess.run([sys.executable, '-m', 'harness.c09', 'qworker'], env=e, capture_output=True, text=True,
+			                   input=json.dumps([[dirs[i], cases[i]['n'], cases[i]['chunks'], cases[i].get('cores', 0)] for i in idxs]),
+			                   cwd=os.path.dirname(os.path.dirname(os.path.abspath(__file__))))
+			if p.returncode != 0:
+				raise RuntimeError('C09 query worker failed: ' + p.stderr[-800:])
+			for i, res in zip(idxs, json.loads(p.stdout)):
+				case = cases[i]
+				if i in flagged:
+					continue
+				if 'error' in res:
+					ctx.broke('correspondence queryenv (the query failed instead of returning results)',
+					          f'environment {k}: {res["error"][:400]}; case {json.dumps(case)[:600]}')
+					flagged.add(i)
+					continue
+				descs = case.get('descs') or [f'genome {j}' for j in range(len(case['refs']))]
+				jl = [[[int(g[0][1:]), f32_bits(g[2]) if np.float32(g[2]) == g[2] else repr(g[2]), None if g[3] is None else int(g[3][1:])]
+				       for g in it] for it in res['json']]
+				canon = dict(api=res['api'], json=jl, csv=res['csv'])
+				where = f'environment {k}'
+				if i in first and first[i][1] != canon:
+					ctx.violation('queryenv', case, f'query results differ between environment {first[i][0]} and {where}',
+					              impl_first=first[i][1], impl=canon)
+					flagged.add(i)
+					continue
+				first.setdefault(i, (k, canon))
+				what = None
+				for ci, obs in enumerate(res['api']):
+					for qi, o in enumerate(obs):
+						if o['closest'] and o['closest'][0] != o['match']:
+							what = f'query #{qi} chunksize={case["chunks"][ci]}: closest_genomes[0] = {o["closest"][0]} but closest_match = {o["match"]}'
+						elif exps[i] is not None and o != exps[i][case['n']][qi]:
+							e_ = exps[i][case['n']][qi]
+							what = (f'query #{qi} chunksize={case["chunks"][ci]} N={case["n"]}: closest_genomes {[x[0] for x in o["closest"]][:12]} '
+							        f'/ match {o["match"][0]} is not the (distance, reference order) prefix with exact distances and taxa; '
+							        f'expected {[x[0] for x in e_["closest"]][:12]} / match {e_["match"][0]}')
+						if what:
+							break
+					if what:
+						break
+				if not what:
+					for qi, (crow, jq) in enumerate(zip(res['csv'], res['json'])):
+						if not jq or jq[0][1] != crow[0]:
+							what = f'CLI query #{qi}: CSV closest.description = {crow[0]!r} but JSON closest_genomes[0] = {[g[1] for g in jq[:1]]}'
+						elif exps[i] is not None and (jl[qi] != exps[i][10][qi]['closest'] or
+						                              [g[1] for g in jq] != [descs[x[0]] for x in exps[i][10][qi]['closest']]):
+							what = (f'CLI query #{qi}: JSON closest_genomes {[x[0] for x in jl[qi]][:12]} is not the (distance, reference '
+							        f'order) prefix {[x[0] for x in exps[i][10][qi]["closest"]][:12]} with exact distances and taxa')
+						if what:
+							break
+				if what:
+					ctx.violation('queryenv', case, f'{where}: {what}', impl=canon, model=None if exps[i] is None else exps[i])
+					flagged.add(i)
+	finally:
+		shutil.rmtree(top, ignore_errors=True)
+
+
+KINDS = {'row': k_row, 'rowenv': k_rowenv, 'query': k_query, 'rowx': k_rowx, 'rowseq': k_rowseq,
+         'queryx': k_queryx, 'queryenv': k_queryenv}
 
 
 def setup(ctx):
@@ -514,8 +1371,7 @@ def gen_row(rng, length, nv, n=None):
 	return dict(n=n, taxa=taxa, refs=refs, layout=rng.choice(['1d', 'row2d']), strict=rng.random() < 0.25)
 
 
-def gen_query_case(rng, nrefs, nq):
-	k = 5
+def gen_query_case(rng, nrefs, nq, k=5):
 	hi = 4 ** k
 	base = [sorted(rng.sample(range(hi), rng.randint(1, 12))) for _ in range(rng.randint(1, 4))]
 	pool = []
@@ -542,6 +1398,135 @@ def gen_query_case(rng, nrefs, nq):
 	rng.shuffle(order)
 	return dict(k=k, n=rng.choice([1, 3, 10, nrefs, nrefs + 5]), taxa=taxa, refs=refs, queries=queries, sqlorder=order,
 	            chunks=rng.sample([1, 2, 3, 7, 16, 1000, None], 3), cores=rng.sample([0, 1, 2, 5], 2))
+
+
+def gen_rowx(rng, length):
+	"""a tie-heavy row with the call's arguments in one of the forms a caller may use"""
+	c = gen_row(rng, length, rng.choice([1, 2, 3, 5]))
+	c['dt'] = rng.choice(DTYPES)
+	c['layout'] = rng.choice(LAYOUTS)
+	c['genomes'] = rng.choice(['list', 'tuple'])
+	c['call'] = rng.choice(['default', 'kw', 'pos'])
+	r = rng.random()
+	if r < 0.4:
+		nt = rng.choice([t for t in NTYPES if t not in ('int', 'bool')])
+		if c['n'] > NTYPES[nt]:
+			c['n'] = rng.randint(1, min(NTYPES[nt], length + 2))
+		c['ntype'] = nt
+	elif r < 0.55:
+		c['n'] = rng.choice(HUGE_N)
+		c['ntype'] = rng.choice(['int'] + [t for t in ('int64', 'uint64', 'intp', 'uint32') if c['n'] <= NTYPES[t]])
+	elif r < 0.6:
+		c['n'], c['ntype'] = 1, 'bool'
+	if c['dt'] in ('f8', '>f8') and rng.random() < 0.6:
+		to_f64(rng, c)
+	return c
+
+
+def to_f64(rng, c):
+	"""turn the row into genuine doubles: each float32 distance moved by a few double ulps, so values that
+	differ as doubles would collide (and thresholds would be crossed) if anything narrowed them to float32"""
+	import math
+	refs = []
+	for b, t in c['refs']:
+		refs.append([max(0, f64_key(bits_f32(b)) + rng.choice([-2, -1, 0, 0, 0, 1, 2])), t])
+	c['refs'] = refs
+	c['f64'] = True
+	taxa = []
+	for par, thr in c['taxa']:
+		if thr is not None and rng.random() < 0.6:
+			x = struct.unpack('<d', struct.pack('<q', rng.choice(refs)[0]))[0]
+			thr = rng.choice([x, math.nextafter(x, 2.0), math.nextafter(x, -1.0) if x > 0 else x])
+		taxa.append([par, thr])
+	c['taxa'] = taxa
+
+
+def gen_rowseq(rng):
+	"""a short sequence of rows over ONE set of references: repeats, permutations and one-entry edits of a base row"""
+	vals = gen_values(rng, rng.choice([1, 2, 2, 3, 4]))
+	nt = rng.randint(1, 5)
+	taxa = gen_taxa(rng, nt, vals)
+	m = rng.choice([2, 3, 5, 8, 16, 17, 18, 33, 70, 130])
+	gt = [rng.randrange(nt) for _ in range(m)]
+	base = [rng.choice(vals) for _ in range(m)]
+	steps = []
+	for _ in range(rng.randint(2, 6)):
+		r = rng.random()
+		bits = list(base)
+		if 0.3 <= r < 0.6:
+			rng.shuffle(bits)
+		elif 0.6 <= r < 0.8:
+			bits[rng.randrange(m)] = rng.choice(vals)
+		elif r >= 0.8:
+			bits = [rng.choice(vals) for _ in range(m)]
+		steps.append(dict(n=rng.choice([1, 2, 3, 10, max(1, m - 1), m, m + 1]), bits=bits))
+	return dict(taxa=taxa, gt=gt, steps=steps, mutate=rng.choice(['none', 'params', 'buffer', 'both']))
+
+
+def gen_descs(rng, nrefs):
+	r = rng.random()
+	if r < 0.3:
+		return None
+	if r < 0.65:
+		# unusual but distinct names
+		return [f'{rng.choice(ODD_NAMES)} [{i}]' if rng.random() < 0.8 else rng.choice(ODD_NAMES) + ' ' * i for i in range(nrefs)]
+	# descriptions shared by several genomes (the column is not unique)
+	pool = rng.sample(ODD_NAMES, rng.randint(1, 3))
+	return [rng.choice(pool) for _ in range(nrefs)]
+
+
+def gen_queryx_base(rng, nrefs, nq):
+	k = rng.choice([5, 5, 6, 8, 9, 11, 17])   # k <= 4 gives uint8 signatures, which the distance kernel refuses (no result at all)
+	c = gen_query_case(rng, nrefs, nq, k=k)
+	del c['chunks'], c['cores']
+	if rng.random() < 0.25:
+		c['queries'][rng.randrange(nq)] = []
+	if nq > 1 and rng.random() < 0.4:
+		c['queries'][rng.randrange(nq)] = list(c['queries'][rng.randrange(nq)])
+	if rng.random() < 0.55:
+		# unrelated signatures in the signature file; equal to a query or a reference, so that they would be
+		# the nearest / would tie if they were taken for references
+		src = [q for q in c['queries']] + [r[0] for r in c['refs']]
+		c['extras'] = [[rng.randint(0, nrefs), list(rng.choice(src))] for _ in range(rng.randint(1, 4))]
+	c['idattr'] = rng.choice(IDATTRS)
+	return c
+
+
+def pick_chunk(rng, nrefs, nq):
+	"""a chunk size; tiny chunks only where the number of kernel calls (queries x chunks) stays small"""
+	opts = [c for c in (1, 2, 3, 7, 16) if nq * -(-nrefs // c) <= 120] + [1000, None, nrefs, nrefs + 1, max(1, nrefs - 1)]
+	return rng.choice(opts)
+
+
+def gen_queryx_case(rng):
+	nrefs = rng.choice([1, 2, 3, 5, 9, 12, 17, 20, 40])
+	files = rng.random() < 0.4          # query genomes also given as FASTA files (query_parse / CLI positional / -l)
+	nq = rng.choice([1, 2, 3]) if files else rng.choice([1, 2, 3, 3, 8, 25])
+	c = gen_queryx_base(rng, nrefs, nq)
+	c['descs'] = gen_descs(rng, nrefs)
+	c['dbform'] = rng.choice(DBFORMS)
+	n0 = rng.choice([1, 2, 3, 10, nrefs, nrefs + 5])
+	calls = rng.sample([x for x in CALLS if x != 'parse'], 3) + (['parse'] if files else [])
+	c['configs'] = [dict(n=n0 if rng.random() < 0.7 else rng.choice([1, 2, 10, max(1, nrefs - 1), nrefs + 1, 2 ** 40]),
+	                     chunk=pick_chunk(rng, nrefs, nq), qform=rng.choice(QFORMS), call=call,
+	                     strict=rng.random() < 0.2, threads=rng.choice([1, 1, 2, 3]),
+	                     pk=rng.choice(['none', 'none', 'threads', 'threads', 'processes'])) for call in calls]
+	c['n'] = n0
+	c['cli'] = [dict(cores=rng.choice([1, 2]) if files and j == 0 else rng.choice([0, 1, 2, 5]), strict=rng.choice([None, None, False, True]),
+	                 input=rng.choice(['files', 'listfile']) if files and j == 0 else 'sig', dbarg=rng.choice(['-d', '-d', 'env']))
+	            for j in range(2 if files else 1)]
+	return c
+
+
+def gen_queryenv_case(rng, envs):
+	nrefs = rng.choice([2, 5, 9, 17, 40, 70, 150])
+	nq = rng.choice([1, 3, 8, 20])
+	c = gen_queryx_base(rng, nrefs, nq)
+	c['n'] = rng.choice([1, 3, 10, nrefs])
+	c['chunks'] = [pick_chunk(rng, nrefs, nq), pick_chunk(rng, nrefs, nq)]
+	c['cores'] = rng.choice([0, 0, 1, 3])
+	c['envs'] = envs
+	return c
 
 
 def generate(ctx):
@@ -596,6 +1581,31 @@ def generate(ctx):
 	for _ in range(ctx.pick(60, 400)):
 		ctx.count('stream:query')
 		yield 'query', gen_query_case(rng, rng.choice([1, 2, 5, 9, 12, 17, 20, 40, 70]), rng.randint(1, 3))
+	# ---- streams added by the coverage audit (see the table in the module docstring) ----------------------
+	# argument forms of get_result_item: N as NumPy scalar / bool / astronomically large, distance row as
+	# float64 / non-native byte order / strided / negative stride / unaligned / read-only / sub-class,
+	# genuine double distances, tuple of genomes, keyword / positional call
+	for _ in range(ctx.pick(600, 9000)):
+		ctx.count('stream:rowx-forms')
+		yield 'rowx', gen_rowx(rng, rng.choice(lens + [255, 256, 257]))
+	# the same forms under other CPU-dispatch / thread settings
+	xrows = [gen_rowx(rng, rng.choice(lens + big)) for _ in range(ctx.pick(60, 400))]
+	for env in envs:
+		for r in xrows:
+			ctx.count('stream:rowenv-forms')
+			yield 'rowenv', dict(r, env=env)
+	# caller-supplied objects reused across calls
+	for _ in range(ctx.pick(150, 2500)):
+		ctx.count('stream:rowseq')
+		yield 'rowseq', gen_rowseq(rng)
+	# whole queries through the other entry points / containers / channels
+	for _ in range(ctx.pick(24, 300)):
+		ctx.count('stream:queryx')
+		yield 'queryx', gen_queryx_case(rng)
+	# whole queries (kernel + classification + CLI export) in sub-processes per CPU-dispatch / thread setting
+	for _ in range(ctx.pick(6, 60)):
+		ctx.count('stream:queryenv')
+		yield 'queryenv', gen_queryenv_case(rng, envs)
 	# malformed stream: no reference at all (np.argmin raises ValueError before anything is reported)
 	ctx.count('stream:malformed')
 	yield 'row', dict(n=10, taxa=taxa0, refs=[], layout='1d')
@@ -604,3 +1614,5 @@ def generate(ctx):
 if __name__ == '__main__':
 	if sys.argv[1:] == ['worker']:
 		worker()
+	elif sys.argv[1:] == ['qworker']:
+		qworker()
